@@ -229,18 +229,16 @@ theorem sum_filter_of_zero {α : Type} (q : α → Bool) (g : α → Rat) (l : L
 
 /-- the ω-groups take exactly the accumulated phasors: Σ over the reported ω keys of the transform of the part
     taken = Σ over ALL accumulated entries (the dropped ones are zero phasors) -/
-theorem ac_parts_sum (s0 : Rat) (d : Decomp Rat) (h : (acKeys d.ac).Nodup) :
-    (((d.ac.filter (fun p => p.2.1 != 0 || p.2.2 != 0)).map (fun p => Key.ac p.1)).map
-        (fun k => match k with | Key.ac w => phasorLap (acPart d w).1 (-(acPart d w).2) w s0 | _ => 0)).sum =
+theorem ac_parts_sum (XL : Nat → Rat) (s0 : Rat) (d : Decomp Rat) (h : (acKeys d.ac).Nodup) :
+    (((d.ac.filter (fun p => p.2.1 != 0 || p.2.2 != 0)).map (fun p => Key.ac p.1)).map (partLap XL s0 d)).sum =
       sumK (d.ac.map (fun p => phasorLap p.2.1 (-p.2.2) p.1 s0)) := by
   rw [sumK_eq_sum, List.map_map]
   have hcongr : ∀ l : List (Rat × Rat × Rat), (∀ p ∈ l, p ∈ d.ac) →
-      (l.map ((fun k => match k with | Key.ac w => phasorLap (acPart d w).1 (-(acPart d w).2) w s0 | _ => 0) ∘
-        (fun p => Key.ac p.1))) = l.map (fun p => phasorLap p.2.1 (-p.2.2) p.1 s0) := by
+      (l.map ((partLap XL s0 d) ∘ (fun p => Key.ac p.1))) = l.map (fun p => phasorLap p.2.1 (-p.2.2) p.1 s0) := by
     intro l hl
     apply List.map_congr_left
     intro p hp
-    simp only [Function.comp, acPart_of_mem d h p (hl p hp)]
+    simp only [Function.comp, partLap, acPart_of_mem d h p (hl p hp)]
   rw [hcongr _ (fun p hp => (List.mem_filter.mp hp).1)]
   apply sum_filter_of_zero
   intro p _ hq
